@@ -13,6 +13,9 @@ for id in "$@"; do
   echo "== $id on $(basename $seed)"
   (cd "$vc" && VERIF_REPO="$wt" timeout 3600 ./check "$id" --tier "${TIER:-quick}" 2>&1 | grep -E "^(VIOLATION|OK|KNOWN-FINDING|Traceback)" | cut -c1-220)
   echo "rc=$?"
-  ls "$vc"/replays 2>/dev/null | head -3
+  for r in $(ls "$vc"/replays 2>/dev/null | head -3); do python3 -c "
+import json,sys
+d=json.load(open(sys.argv[1])); print('  replay', sys.argv[1].split('/')[-1], 'kind=', d.get('kind'), 'detail=', str(d.get('detail'))[:160], 'broken=', [(b.get('kind'), b.get('name'), str(b.get('message'))[:300]) for b in d.get('broken', [])][:3])
+" "$vc/replays/$r"; done
 done
 git -C /repo worktree remove --force "$wt"; rm -rf "$wt" "$vc"
